@@ -321,12 +321,19 @@ func (cfg *config) printCfg(w io.Writer, skipComments, skipVer, annot bool) {
 	}
 
 	for _, title := range cfg.titleStrings {
+		if title == "" {
+			// Empty after preprocessing: there is no syntax for it.
+			continue
+		}
 		fmt.Fprintln(w, fkw("title"), escapeNl(title))
 	}
 	for _, author := range cfg.authors {
 		fmt.Fprintln(w, fkw("author"), escapeNl(author))
 	}
 	for _, seeAlso := range cfg.seeAlso {
+		if seeAlso == "" {
+			continue
+		}
 		fmt.Fprintln(w, fkw("attention"), escapeNl(seeAlso))
 	}
 	if len(cfg.roles) == 0 {
